@@ -8,7 +8,7 @@ use crate::model::codec;
 use crate::model::ops::MOp;
 use crate::model::vm::MSolution;
 use essential_types::{ContentAddress, Key, Word};
-use essential_vm::{Access, GasLimit, Memory, Stack, StateRead, StateReads, Vm};
+use essential_vm::{StateRead, StateReads};
 use serde::{Deserialize, Serialize};
 use std::collections::{BTreeMap, BTreeSet};
 use std::sync::Arc;
@@ -290,38 +290,70 @@ struct NodeOut {
     memory: Vec<i64>,
 }
 
-/// Execute one node program on the real VM from the concatenation of its parents' outputs.
+/// The reference views as RefVm sees them.
+struct ModelAdapter<'a>(&'a RefViews);
+
+impl crate::model::vm::ModelState for ModelAdapter<'_> {
+    fn read(&self, post: bool, contract: &[u8; 32], key: &[i64], count: usize) -> Result<Vec<Vec<i64>>, String> {
+        let v = if post { &self.0.post } else { &self.0.pre };
+        v.key_range(ContentAddress(*contract), key.to_vec(), count).map_err(|e| e.0)
+    }
+}
+
+/// Execute one node program on **RefVm** from the concatenation of its parents' outputs (cost 1, no limit).
+/// Err(None) = the program (or the concatenation) fails; Err(Some(r)) = unspecified behaviour was reached.
 fn exec_node(
     prog: &[MOp],
     inputs: &[&NodeOut],
-    solutions: &Arc<Vec<essential_types::solution::Solution>>,
+    msols: &[MSolution],
     index: usize,
     views: &RefViews,
-) -> Result<(NodeOut, u64), String> {
+) -> Result<(NodeOut, u64), Option<&'static str>> {
+    use crate::model::vm as mvm;
     let mut stack = Vec::new();
     let mut memory = Vec::new();
     for i in inputs {
         stack.extend_from_slice(&i.stack);
         memory.extend_from_slice(&i.memory);
     }
-    let stack = Stack::try_from(stack).map_err(|e| format!("parent stacks: {e}"))?;
-    let memory = Memory::try_from(memory).map_err(|e| format!("parent memories: {e}"))?;
-    let mut vm = Vm {
-        stack,
-        memory,
-        ..Default::default()
+    if stack.len() > mvm::S || memory.len() > mvm::M {
+        return Err(None);
+    }
+    let adapter = ModelAdapter(views);
+    let cost = |_: &MOp| 1u64;
+    let env = mvm::Env {
+        solutions: msols,
+        index,
+        state: &adapter,
+        cost: &cost,
+        steps_left: std::cell::Cell::new(5_000_000),
+        breadth_cap: 10_000,
+        cost_calls: std::cell::Cell::new(0),
     };
-    let ops = crate::real::to_real_ops(prog);
-    let gas = vm
-        .exec_ops(&ops, Access::new(solutions.clone(), index as u16), views, &|_: &essential_asm::Op| 1u64, GasLimit::UNLIMITED)
-        .map_err(|e| format!("{e}"))?;
-    Ok((
-        NodeOut {
-            stack: vm.stack.to_vec(),
-            memory: vm.memory.to_vec(),
+    let mut m = mvm::Machine::new(
+        prog,
+        mvm::MState {
+            pc: 0,
+            stack,
+            memory,
+            repeat: vec![],
         },
-        gas,
-    ))
+        &env,
+        u64::MAX,
+    );
+    match m.run() {
+        mvm::RunResult::Ok { gas, .. } => Ok((
+            NodeOut {
+                stack: m.st.stack.clone(),
+                memory: m.st.memory.clone(),
+            },
+            gas,
+        )),
+        mvm::RunResult::Err { .. } => Err(None),
+        mvm::RunResult::Unspec(r) => Err(Some(r)),
+        mvm::RunResult::OverBudget => Err(Some("node program over the reference step budget")),
+        mvm::RunResult::ExcludedBreadth => Err(Some("compute breadth above the reference cap")),
+    }
 }
 
 struct PassResult {
@@ -329,6 +361,8 @@ struct PassResult {
     fails: BTreeMap<usize, SolFail>,
     /// per solution data-output memories
     outputs: Vec<Vec<Vec<i64>>>,
+    /// a node program reached behaviour the reference leaves open
+    unspecified: Option<&'static str>,
 }
 
 pub struct RefRun<'a> {
@@ -391,8 +425,7 @@ impl<'a> RefRun<'a> {
                 }
             }
         }
-        let msols = to_msolutions(case, &self.pred_addr);
-        let mut real_sols = crate::real::to_real_solutions(&msols);
+        let mut msols = to_msolutions(case, &self.pred_addr);
         let pre = Arc::new(ViewImpl::from_spec(&crate::doubles::ViewSpec::Map(case.pre_state.clone())));
         // ---- pass 1
         let views1 = RefViews {
@@ -400,7 +433,10 @@ impl<'a> RefRun<'a> {
             post: RefView::Post(pre.clone(), Arc::new(Overlay::new()), Default::default()),
         };
         let mut cache: Vec<BTreeMap<u16, NodeOut>> = (0..case.solutions.len()).map(|_| BTreeMap::new()).collect();
-        let p1 = self.run_pass(1, &Arc::new(real_sols.clone()), &views1, &invalid, &mut cache, trace);
+        let p1 = self.run_pass(1, &msols, &views1, &invalid, &mut cache, trace);
+        if let Some(r) = p1.unspecified {
+            return RefVerdict::Unspecified(r);
+        }
         if !p1.fails.is_empty() {
             return RefVerdict::Failed {
                 pass: 1,
@@ -428,12 +464,9 @@ impl<'a> RefRun<'a> {
                 overlay.insert((s.contract, k.clone()), v.clone());
             }
         }
-        for (si, s) in real_sols.iter_mut().enumerate() {
+        for (si, s) in msols.iter_mut().enumerate() {
             for (k, v) in &computed[si] {
-                s.state_mutations.push(essential_types::solution::Mutation {
-                    key: k.clone(),
-                    value: v.clone(),
-                });
+                s.mutations.push((k.clone(), v.clone()));
             }
         }
         let read_log: ReadLog = Default::default();
@@ -442,7 +475,10 @@ impl<'a> RefRun<'a> {
             pre: RefView::Pre(pre.clone()),
             post: RefView::Post(pre.clone(), overlay.clone(), read_log.clone()),
         };
-        let p2 = self.run_pass(2, &Arc::new(real_sols), &views2, &invalid, &mut cache, trace);
+        let p2 = self.run_pass(2, &msols, &views2, &invalid, &mut cache, trace);
+        if let Some(r) = p2.unspecified {
+            return RefVerdict::Unspecified(r);
+        }
         // classify what the post-state reads looked at (evidence for C03)
         for (c, key, n) in read_log.lock().unwrap().iter() {
             let mut k = key.clone();
@@ -554,7 +590,7 @@ impl<'a> RefRun<'a> {
     fn run_pass(
         &self,
         pass: u8,
-        real_sols: &Arc<Vec<essential_types::solution::Solution>>,
+        msols: &[MSolution],
         views: &RefViews,
         invalid: &BTreeMap<usize, SolFail>,
         cache: &mut [BTreeMap<u16, NodeOut>],
@@ -565,6 +601,7 @@ impl<'a> RefRun<'a> {
             gas: 0,
             fails: BTreeMap::new(),
             outputs: vec![vec![]; case.solutions.len()],
+            unspecified: None,
         };
         for (si, s) in case.solutions.iter().enumerate() {
             if let Some(f) = invalid.get(&si) {
@@ -590,8 +627,12 @@ impl<'a> RefRun<'a> {
                 }
                 let inputs: Vec<&NodeOut> = a.parents[xi].iter().map(|p| cache[si].get(p).expect("parent output present")).collect();
                 trace.evaluated.push((si, x, pass));
-                match exec_node(&case.programs[pred.nodes[xi].prog], &inputs, real_sols, si, views) {
-                    Err(_) => {
+                match exec_node(&case.programs[pred.nodes[xi].prog], &inputs, msols, si, views) {
+                    Err(Some(r)) => {
+                        res.unspecified = Some(r);
+                        failed.insert(x);
+                    }
+                    Err(None) => {
                         failed.insert(x);
                     }
                     Ok((out, gas)) => {
